@@ -347,6 +347,13 @@ TrListObjects ==
 \* ListUsers (DESIGN D.4)
 SubjIds(TS, t) == ObjIds(TS, t)
 
+WildNestedExcl(M, TS, o, r) ==
+  LET goals == TGoalKeys(M, o.t, r)
+      withDiff == {g \in goals : HasRel(M, g[1], g[2]) /\ \E x \in SubRw(Rw(M, g[1], g[2])) : x.k = "diff"}
+      reads == TReadKeys(M, o.t, r)
+  IN /\ Cardinality(withDiff) >= 2
+     /\ \E t \in TS : IsWild(t.u) /\ <<t.o.t, t.r>> \in reads
+
 ListUsersClass(M, TS, ev) ==
   LET X    == SeqToSet(ev.got)
       hold(u) == Holds(M, TS, ev.ctx, ev.o, ev.r, u)
@@ -359,6 +366,10 @@ ListUsersClass(M, TS, ev) ==
             IF ev.errk = "cond" /\ AnyE(M, TS, ev.ctx) THEN <<"OK_LU_ERR", "">> ELSE <<"BAD_LU_ERR", "">>
      ELSE IF Len(ev.got) # Cardinality(X) THEN <<"BAD_LU_DUP", "">>
      ELSE IF \E u \in X : ~matches(u) THEN <<"BAD_LU_FILTER", "">>
+     \* KF-20: with a typed-wildcard tuple below two or more exclusions on the evaluation path, users
+     \* subtracted at an inner level are re-listed by an outer one
+     ELSE IF (\E u \in X : hold(u) # "T") /\ WildNestedExcl(M, TS, ev.o, ev.r)
+          THEN <<"KF_LUNestedExclusionWildcard", ToString({u \in X : hold(u) # "T"})>>
      ELSE IF \E u \in X : hold(u) # "T" THEN <<"BAD_LU_UNSOUND", ToString({u \in X : hold(u) # "T"})>>
      ELSE IF missing = {} THEN <<"OK_LU", "">>
      ELSE IF SubCycle(M, TS, ev.o, ev.r) THEN <<"KF_ExclSubtractCycle", ToString(missing)>>
